@@ -1,4 +1,5 @@
 import Pog.Props.C02
+import Pog.Lemmas.GenCode
 /-
   C19 (re-ordering part) — reordering `components.schemas` (or an object's properties) changes at
   most the order of the emitted declarations: the set of models and their fields stay the same.
@@ -13,6 +14,13 @@ import Pog.Props.C02
     parse_perm_invariant_partial            partial  on the DAG fragment of `C02.parse_faithful_partial` every
                                                      re-ordering of the declarations gives the same set of
                                                      models with the same fields
+
+  C19 (key order of the `responses` mapping) — the response an operation's return type is taken from (and the arm
+  that returns through it) must not depend on the order in which the keys of `responses` are written:
+
+    primary_response_key_order_invariant    full   both copies of `_get_primary_response` (as repaired, F57) select
+                                                   the same response for every permutation of the mapping's entries
+    primary_response_key_order_nonvacuous   (example) two orders of 206/203/default/404
 -/
 namespace Pog.C19
 open Pog Pog.Prs Pog.Trk Pog.C02
@@ -84,5 +92,27 @@ theorem parse_perm_invariant_partial (d d' : Decls) (rank : Str → Nat) (hp : d
   exact parse_perm_invariant_of_faithful d d' hp hS.nodup _ _ x.1 (h1.2.2 x hx) (h2.2.2 x (hp.mem_iff.mp hx))
 
 example : orderDecls.Perm orderDecls.reverse := (List.reverse_perm _).symm
+
+/-! ## key order of one operation's `responses` mapping -/
+
+open Pog.GenCode in
+/-- For every list of responses with pairwise distinct status keys (they are the keys of one mapping) and every
+    re-ordering of it, `ResponseStrategyResolver._get_primary_response` (return type) and
+    `endpoint_utils._get_primary_response` (the `match` arm that returns) select the same response as before.
+    Before the repair of F57 the steps "other 2xx" and "first response" returned the first LISTED candidate. -/
+theorem primary_response_key_order_invariant (rs rs' : List Resp) (hp : rs.Perm rs')
+    (hk : (rs.map (·.key.str)).Nodup) :
+    primaryA rs = primaryA rs' ∧ primaryB rs = primaryB rs' := by
+  have h := primaryA_perm hp hk
+  exact ⟨h, by rw [← primaryA_eq_primaryB, ← primaryA_eq_primaryB, h]⟩
+
+open Pog.GenCode in
+/-- Non-vacuity + the shape that used to fail: 206 listed before 203. -/
+theorem primary_response_key_order_nonvacuous :
+    let a : List Resp := [⟨.num 206, []⟩, ⟨.num 203, []⟩, ⟨.default, []⟩, ⟨.num 404, []⟩]
+    let b : List Resp := [⟨.num 404, []⟩, ⟨.default, []⟩, ⟨.num 203, []⟩, ⟨.num 206, []⟩]
+    (a.map (·.key.str)).Nodup ∧ (primaryA a).map (·.key) = some (.num 203) ∧ (primaryA b).map (·.key) = some (.num 203) ∧
+    (primaryA [⟨.num 500, []⟩, ⟨.num 404, []⟩]).map (·.key) = some (.num 404) := by
+  decide +kernel
 
 end Pog.C19
